@@ -7,12 +7,17 @@
       per mesh point, in mesh order (`iterFaultMap_mesh`, `iterFaultMap_length`);
     * a rotated cell whose atoms all lie in ONE layer (the one-atom primitive cell) at ANY height `x`: exactly one
       shift is offered, and it puts the layer half a cell width from the cut (`shifts_single_layer`,
-      `single_layer_centered`) - not `W / 2`, which is right only for `x = 0`.
+      `single_layer_centered`) - not `W / 2`, which is right only for `x = 0`;
+    * the number of cells along the cut is exactly `max(|m|, ceil(minwidth / W))`, plus one when `even` asks for it
+      and that number is odd (`cutMult_exact`); the slab is at least `minwidth` thick and one cell fewer would be too
+      thin, in particular `minwidth = k W` gives `k` cells, not `k + 1` (`cutMult_minwidth`).
 -/
 import Atomman.C14
 import Mathlib.Algebra.Order.Field.Basic
 import Mathlib.Data.List.Nodup
 import Mathlib.Data.List.Range
+import Mathlib.Algebra.Order.Floor.Ring
+import Mathlib.Data.Rat.Floor
 import Mathlib.Tactic.Ring
 import Mathlib.Tactic.Linarith
 import Mathlib.Tactic.FieldSimp
@@ -172,4 +177,65 @@ example : shifts [(3 : ℚ) / 4] 3 (1 / 100000000) = [3 / 4] := by
   simp [relShift]; norm_num
 
 end onelayer
+
+/-! ## the multiplier along the cut: exactly as many cells as asked for -/
+
+/-- the number of cells along the cut is EXACTLY the larger of the given multiplier and `q = ceil(minwidth / W)`,
+    made even by adding one when `even` is asked for: never fewer, never more. -/
+theorem cutMult_exact (m : ℤ) (hm : m ≠ 0) (q : ℤ) (even : Bool) :
+    ((cutMult m (some q) even).natAbs : ℤ) =
+      (if even = true ∧ (max (m.natAbs : ℤ) q) % 2 = 1 then max (m.natAbs : ℤ) q + 1 else max (m.natAbs : ℤ) q) := by
+  rcases lt_or_gt_of_ne hm with hneg | hpos
+  · have hs : Int.sign m = -1 := Int.sign_eq_neg_one_of_neg hneg
+    cases even <;>
+      simp only [cutMult, hs, Bool.false_eq_true, Bool.true_and, Bool.false_and, if_false, decide_eq_true_eq,
+        false_and, true_and, if_false] <;>
+      split_ifs <;> omega
+  · have hs : Int.sign m = 1 := Int.sign_eq_one_of_pos hpos
+    cases even <;>
+      simp only [cutMult, hs, Bool.false_eq_true, Bool.true_and, Bool.false_and, if_false, decide_eq_true_eq,
+        false_and, true_and, if_false] <;>
+      split_ifs <;> omega
+
+section width
+variable {K : Type} [Field K] [LinearOrder K] [IsStrictOrderedRing K] [FloorRing K]
+
+/-- with `q = ceil(minwidth / W)`: the slab is at least `minwidth` thick, and when `minwidth` (not the given
+    multiplier, not `even`) decides, one cell fewer would be too thin - also when `minwidth` is an exact multiple of
+    the cell width (`q` cells then, not `q + 1`). -/
+theorem cutMult_minwidth (m : ℤ) (hm : m ≠ 0) (W mw : K) (hW : 0 < W) (even : Bool) :
+    mw ≤ ((cutMult m (some ⌈mw / W⌉) even).natAbs : K) * W ∧
+    (even = false → (m.natAbs : ℤ) < ⌈mw / W⌉ →
+      (((cutMult m (some ⌈mw / W⌉) even).natAbs : K) - 1) * W < mw) := by
+  have hx := cutMult_exact m hm ⌈mw / W⌉ even
+  have hq : ⌈mw / W⌉ ≤ ((cutMult m (some ⌈mw / W⌉) even).natAbs : ℤ) := by
+    rw [hx]
+    split_ifs <;> have := le_max_right (m.natAbs : ℤ) ⌈mw / W⌉ <;> omega
+  constructor
+  · have h1 : mw / W ≤ (⌈mw / W⌉ : K) := Int.le_ceil _
+    have h2 : ((⌈mw / W⌉ : ℤ) : K) ≤ (((cutMult m (some ⌈mw / W⌉) even).natAbs : ℤ) : K) := by exact_mod_cast hq
+    have h3 : mw / W ≤ (((cutMult m (some ⌈mw / W⌉) even).natAbs : ℤ) : K) := le_trans h1 h2
+    rw [div_le_iff₀ hW, Int.cast_natCast] at h3
+    exact h3
+  · intro he hlt
+    subst he
+    simp only [Bool.false_eq_true, false_and, if_false] at hx
+    have hmax : max (m.natAbs : ℤ) ⌈mw / W⌉ = ⌈mw / W⌉ := max_eq_right hlt.le
+    rw [hmax] at hx
+    have h1 : ((⌈mw / W⌉ : ℤ) : K) - 1 < mw / W := by
+      have := Int.ceil_lt_add_one (mw / W)
+      linarith
+    have h2 : (((cutMult m (some ⌈mw / W⌉) false).natAbs : ℤ) : K) = ((⌈mw / W⌉ : ℤ) : K) := by rw [hx]
+    have h3 : (((cutMult m (some ⌈mw / W⌉) false).natAbs : K)) = ((⌈mw / W⌉ : ℤ) : K) := by
+      rw [← Int.cast_natCast]; exact h2
+    rw [h3]
+    rw [lt_div_iff₀ hW] at h1
+    exact h1
+
+end width
+
+example : cutMult 1 (some ⌈((6 : ℚ)) / 3⌉) false = 2 := by
+  have : ⌈((6 : ℚ)) / 3⌉ = 2 := by norm_num [Int.ceil_eq_iff]
+  rw [this]; decide
+
 end Atomman.C14
